@@ -57,6 +57,9 @@ def run_k(ctx, kres):
     kres["notes"].append("K11-smallscope: %d call orders, every handle value probed afterwards" % nst)
     def proj2(m): return in_projection(m) or (m["op"] in ("getattr", "find", "findinit") and m["cat"] in ("rvclass", "rvcode", "nums"))
     v += k_suite(ctx, kres, "K11-smallscope", [Trace("scope%d" % i, t) for i, t in enumerate(st)], proj2, direct=direct, shrink_budget=60, rank=lambda m: m["line"])
+    # handles of copies that are more private than their source die with the login (C01's copy-upgrade matrix, judged on the handle answers)
+    v += k_suite(ctx, kres, "K11-copy-upgrade-scope", [Trace("copy-upgrade-scope", gen2.c01_copy_upgrade_scope(ctx.seed))],
+                 lambda m: proj2(m) or (m["op"] in ("objsize", "destroy") and m["cat"] in ("rvclass", "rvcode")), direct=direct, shrink_budget=60)
     return v
 
 
